@@ -49,4 +49,12 @@ SessSelector ==
      sets |-> [C0 |-> {[n |-> "t", v |-> IntV(0)]}],
      appendval |-> IntV(4), local |-> FALSE, protos |-> {}]
 
+\* thread profile: one class, two inputs (one per thread)
+ThreadPlain ==
+    [prog |-> [C0 |-> Class(DefaultOpts, <<U1("n"), DataF("d", SzField("n")), DataF("m", SzMarker(<<0>>, FALSE, TRUE)),
+                                           RepCountF("r", U1("e"), SzExpr(EBin("add", EF("n"), EC(1)), "deferred"), NoCond, 0), U1("z")>>)],
+     raws |-> <<<<1, 65, 66, 0, 7, 8, 9>>, <<2, 65, 66, 67, 67, 0, 1, 2, 3, 4>>>>, f2 |-> FALSE]
+ThreadRegex ==
+    [prog |-> [C0 |-> Class(DefaultOpts, <<U1("n"), DataF("body", SzRegex("crlf", FALSE, TRUE)), U1("z")>>)],
+     raws |-> <<<<1, 65, 13, 10, 2>>, <<1, 66, 10, 3>>>>, f2 |-> TRUE]
 =============================================================================
